@@ -471,6 +471,11 @@ func (s *Sim) execCommit(p *commitPlan) {
 		s.log.Add("  sqlite: %s", l)
 	}
 	tpb, cp := s.pb.runCommit(p)
+	for _, l := range ts {
+		if strings.HasPrefix(l, "UpdateResource(upgraded insert)") {
+			s.stat("sqlite_rowid_reused_in_commit", 1)
+		}
+	}
 	name := "commit"
 	if p.batch {
 		name = "batch"
